@@ -1,5 +1,7 @@
 //! vgraph: Layer-1 explorers on the REAL pipeline (logos_codegen::generate with the capture hook).
 mod cli;
+mod codecheck;
+mod interp;
 mod common;
 mod families;
 mod fragments;
@@ -109,6 +111,7 @@ fn main() {
         "c08" => tokenlevel::c08(&args),
         "c19" => tokenlevel::c19(&args),
         "c13cb" => fragments::c13cb(&args),
+        "code" => codecheck::code(&args),
         "replay" => families::replay(&args),
         "timing" => {
             families::timing(&args);
